@@ -47,7 +47,10 @@ fn arb_params() -> impl Strategy<Value = SimParams> {
 
 fn arb_op(nprogs: usize) -> impl Strategy<Value = Op> {
     prop_oneof![
-        2 => (arb_small_cap(), arb_small_cap()).prop_map(|(in_cap, out_cap)| Op::Attach { in_cap, out_cap }),
+        // request channels are often roomy (several envelopes in flight at once: the agent then sees
+        // bursts within one poll), response channels mostly tiny (slow reader => backpressure relief)
+        2 => (prop_oneof![1 => arb_small_cap(), 1 => proptest::sample::select(vec![64usize, 128, 512, 4096])], arb_small_cap())
+            .prop_map(|(in_cap, out_cap)| Op::Attach { in_cap, out_cap }),
         3 => (any::<u16>(), 0u8..3).prop_map(|(r, lane)| Op::Link { r, lane }),
         2 => (any::<u16>(), 0u8..3).prop_map(|(r, lane)| Op::Sync { r, lane }),
         1 => (any::<u16>(), 0u8..3).prop_map(|(r, lane)| Op::Unlink { r, lane }),
@@ -92,7 +95,7 @@ fn arb_case(max_ops: usize) -> impl Strategy<Value = Case> {
                 }
             }
             // every case starts with a remote so that later ops have a target
-            let mut all = vec![Op::Attach { in_cap: 64, out_cap: 16 }];
+            let mut all = vec![Op::Attach { in_cap: 4096, out_cap: 16 }];
             all.extend(ops);
             Case {
                 params,
